@@ -125,7 +125,10 @@ def _expect_independent(r, operands, what):
     from ak.color import CHText
     if not isinstance(r, CHText):
         return
+    before = _observe(r)
     r += "!"
+    if not _same(_observe(r), before + [("!", "")]):        # (also re-checks str()/len()/plain_text() after an in-place append)
+        raise Violation("append-after-observe :: appending in place to a text that was rendered before does not show as one more plain character")
     for t, model in operands:
         if not _same(_observe(t), model):
             what = what() if callable(what) else what        # (lazily: formatting a symbolic bound would enumerate it)
@@ -143,13 +146,18 @@ class _Deadline:
 
     def __enter__(self):
         import signal
+        import time
         self.old = signal.signal(signal.SIGALRM, self._fire)
-        signal.setitimer(signal.ITIMER_REAL, self.seconds)
+        self.t0 = time.monotonic()
+        self.outer = signal.setitimer(signal.ITIMER_REAL, self.seconds)[0]      # the driver's own watchdog, if armed
 
     def __exit__(self, *a):
         import signal
+        import time
         signal.setitimer(signal.ITIMER_REAL, 0)
         signal.signal(signal.SIGALRM, self.old)
+        if self.outer:
+            signal.setitimer(signal.ITIMER_REAL, max(self.outer - (time.monotonic() - self.t0), 0.01))
         return False
 
 
